@@ -16,6 +16,7 @@
 -/
 import EasyMl.Lemmas.Numeric
 import EasyMl.Lemmas.WrapperOps
+import EasyMl.Model.TraitReq
 
 namespace EasyMl.C19
 open EasyMl EasyMl.Num
@@ -242,6 +243,47 @@ example : (match recordBin (arithPlain .i64) .div true true (ofInt .i64 (-13)) (
   decide
 -- panics propagate: division by a zero number
 example : (traceBin (arithWrapping .u8) .div ⟨5#8, 1#8⟩ ⟨0#8, 3#8⟩).isOk = false := by decide
+
+/-! ### which impls make a user type "numeric": the blanket-impl logic of numeric.rs
+
+`Numeric`, `NumericRef`, `Real`, `RealRef` are bodiless traits with blanket impls, so a type has them
+exactly when it has their supertraits; `TraitReq.usableNumeric` / `usableReal` are the supertraits
+of the bound pair `T: Numeric, for<'a> &'a T: NumericRef<T>` (resp. `Real`/`RealRef`) unfolded to
+concrete impls.  That rustc accepts a user type supplying all of them and rejects it when any single
+one is missing is checked by generated probes on every run (props/c19_extra.py), with the verdicts
+taken from this model. -/
+
+open TraitReq in
+/-- every operator is required in all four owned/borrowed operand forms, `Neg` in both -/
+theorem numeric_requires_all_four_forms :
+    (∀ op ∈ ops, ∀ form ∈ [Form.vv, .vr, .rv, .rr], Impl.bin op form ∈ usableNumeric) ∧
+      Impl.neg false ∈ usableNumeric ∧ Impl.neg true ∈ usableNumeric ∧ usableNumeric.length = 24 := by
+  decide
+
+open TraitReq in
+/-- a type supplying exactly the listed impls is accepted, and each single one is necessary -/
+theorem numeric_requirements_exact :
+    satisfies usableNumeric usableNumeric = true ∧
+      ∀ i ∈ usableNumeric, satisfies (usableNumeric.erase i) usableNumeric = false := by
+  decide
+
+open TraitReq in
+theorem real_requirements_exact :
+    satisfies usableReal usableReal = true ∧
+      (∀ i ∈ usableReal, satisfies (usableReal.erase i) usableReal = false) ∧
+      (∀ i ∈ usableNumeric, i ∈ usableReal) ∧ usableReal.length = 39 := by
+  decide
+
+open TraitReq in
+/-- the built-in types: signed integers, floats and `Wrapping<_>` are numeric; unsigned integers
+    (no `Neg`) and — with the std of the pinned toolchain — every `Saturating<_>` (no `Sum` for the
+    signed, no `Neg` for the unsigned ones) are not; only the floats are `Real` -/
+theorem builtin_types_classified :
+    satisfies capsFullNumeric usableNumeric = true ∧ satisfies capsUnsigned usableNumeric = false ∧
+      satisfies capsSaturatingSigned usableNumeric = false ∧
+      satisfies capsSaturatingUnsigned usableNumeric = false ∧
+      satisfies capsFloat usableReal = true ∧ satisfies capsFullNumeric usableReal = false := by
+  decide
 
 /-! ### floats: always succeed, with the nearest value -/
 
